@@ -44,6 +44,51 @@ var c04Core = [][2]string{
 	{"TrCreditPhase", "tlb.TrCreditPhase"}, {"TrComputePhase", "tlb.TrComputePhase"}, {"TrActionPhase", "tlb.TrActionPhase"},
 	{"TrBouncePhase", "tlb.TrBouncePhase"}, {"SplitMergeInfo", "tlb.SplitMergeInfo"},
 	{"TransactionDescr", "tlb.TransactionDescr"}, {"Transaction", "tlb.Transaction"}, {"SignedMsgBody", "wallet.SignedMsgBody"},
+	{"IntermediateAddress", "tlb.IntermediateAddress"},
+	{"MsgMetadata", "tlb.MsgMetadata"},
+	{"MsgEnvelope", "tlb.MsgEnvelope"},
+	{"InMsg", "tlb.InMsg"},
+	{"OutMsg", "tlb.OutMsg"},
+	{"EnqueuedMsg", "tlb.EnqueuedMsg"},
+	{"AccountState", "tlb.AccountState"},
+	{"AccountStorage", "tlb.AccountStorage"},
+	{"StorageExtraInfo", "tlb.StorageExtraInfo"},
+	{"StorageInfo", "tlb.StorageInfo"},
+	{"ExistedAccount", "tlb.ExistedAccount"},
+	{"Account", "tlb.Account"},
+	{"ShardAccount", "tlb.ShardAccount"},
+	{"DepthBalanceInfo", "tlb.DepthBalanceInfo"},
+	{"ExtBlkRef", "tlb.ExtBlkRef"},
+	{"BlkMasterInfo", "tlb.BlkMasterInfo"},
+	{"ShardIdent", "tlb.ShardIdent"},
+	{"BlockIdExt", "tlb.BlockIdExt"},
+	{"GlobalVersion", "tlb.GlobalVersion"},
+	{"ImportFees", "tlb.ImportFees"},
+	{"ShardFeeCreated", "tlb.ShardFeeCreated"},
+	{"KeyExtBlkRef", "tlb.KeyExtBlkRef"},
+	{"KeyMaxLt", "tlb.KeyMaxLt"},
+	{"ValidatorInfo", "tlb.ValidatorInfo"},
+	{"ValidatorBaseInfo", "tlb.ValidatorBaseInfo"},
+	{"Counters", "tlb.Counters"},
+	{"CreatorStats", "tlb.CreatorStats"},
+	{"ProcessedUpto", "tlb.ProcessedUpto"},
+	{"IhrPendingSince", "tlb.IhrPendingSince"},
+	{"SigPubKey", "tlb.SigPubKey"},
+	{"CryptoSignatureSimple", "tlb.CryptoSignatureSimple"},
+	{"ValidatorDescr", "tlb.ValidatorDescr"},
+	{"ValidatorTempKey", "tlb.ValidatorTempKey"},
+	{"Certificate", "tlb.Certificate"},
+	{"StoragePrices", "tlb.StoragePrices"},
+	{"MsgForwardPrices", "tlb.MsgForwardPrices"},
+	{"ParamLimits", "tlb.ParamLimits"},
+	{"BlockLimits", "tlb.BlockLimits"},
+	{"BlockCreateFees", "tlb.BlockCreateFees"},
+	{"ComplaintPricing", "tlb.ComplaintPricing"},
+	{"WorkchainFormat1", "tlb.WorkchainFormat1"},
+	{"WorkchainFormat0", "tlb.WorkchainFormat0"},
+	{"WcSplitMergeTimings", "tlb.WcSplitMergeTimings"},
+	{"PrecompiledSmc", "tlb.PrecompiledSmc"},
+	{"CatchainConfig", "tlb.CatchainConfig"},
 }
 
 // the Go type is found from the descriptor: the case carries the schema name,
